@@ -22,9 +22,10 @@ import (
 var callKinds = []string{"", "", "counter", "reverter", "burner", "agent-unknown-chain", "staking-nofunds", "bad-receiver"}
 
 type ledger struct {
-	r   *core.Run
-	cid string
-	s   *pkt.Sim
+	registryOps bool // histories (not the fault sweep) change the relayer registry under some acknowledgements
+	r           *core.Run
+	cid         string
+	s           *pkt.Sim
 	// supply0 is the origin ERC-20 total supply at the start (must stay constant)
 	supply0 map[string]*big.Int
 }
@@ -63,7 +64,7 @@ func runHistory(r *core.Run, cid string, L int) {
 		return
 	}
 	r.Count(fmt.Sprintf("histories/scale-%d", scale), 1)
-	l := &ledger{r: r, cid: cid, s: s, supply0: map[string]*big.Int{}}
+	l := &ledger{r: r, cid: cid, s: s, supply0: map[string]*big.Int{}, registryOps: true}
 	for _, t := range s.Tokens {
 		if t.Addr != core.ZeroAddr {
 			l.supply0[t.ID] = t.Origin.ERC20Supply(t.Addr)
@@ -265,7 +266,18 @@ func (l *ledger) ackPkt(p *pkt.Pkt) {
 		tokAddr = p.Spec.Token.AddrOn(p.SrcN)
 		before = l.balance(p.SrcN, tokAddr, p.Spec.User.Eth)
 	}
+	// now and then the relayer registry of the sending chain is changed while the acknowledgement is under way (the relayer
+	// it names is unknown for the moment): the message may fail as a whole, but if it is accepted the outcome must be
+	// complete (an error acknowledgement refunds)
+	changed := l.registryOps && s.Rng.Intn(7) == 0
+	if changed {
+		s.ScrambleRelayers(p.SrcN, p.Dst)
+		l.r.Count("acks_under_changed_registry", 1)
+	}
 	o, err := s.HonestAck(p, s.RandRelayer())
+	if changed {
+		s.RestoreRelayers(p.SrcN)
+	}
 	if err != nil {
 		l.r.Count("honest_ack_setup_failed", 1)
 		return
